@@ -982,7 +982,8 @@ orc_compiler_get_temp_reg (OrcCompiler *compiler)
     }
   }
   for(j=0;j<compiler->n_constants;j++){
-    if (compiler->constants[j].alloc_reg) {
+    /* the PowerPC backend marks "no register" with -1 */
+    if (compiler->constants[j].alloc_reg > 0) {
       compiler->alloc_regs[compiler->constants[j].alloc_reg] = 1;
     }
   }
@@ -1266,6 +1267,13 @@ orc_compiler_dup_temporary (OrcCompiler *compiler, int var, int j)
 {
   int i = ORC_VAR_T1 + compiler->n_temp_vars + compiler->n_dup_vars;
 
+  if (i >= ORC_N_COMPILER_VARIABLES) {
+    ORC_COMPILER_ERROR (compiler, "too many temporary variables");
+    /* a valid index for the caller; compilation stops at its next error
+     * check */
+    return ORC_N_COMPILER_VARIABLES - 1;
+  }
+
   compiler->vars[i].vartype = ORC_VAR_TYPE_TEMP;
   compiler->vars[i].size = compiler->vars[var].size;
   compiler->vars[i].name = orc_malloc (strlen(compiler->vars[var].name) + 10);
@@ -1279,6 +1287,13 @@ static int
 orc_compiler_new_temporary (OrcCompiler *compiler, int size)
 {
   int i = ORC_VAR_T1 + compiler->n_temp_vars + compiler->n_dup_vars;
+
+  if (i >= ORC_N_COMPILER_VARIABLES) {
+    ORC_COMPILER_ERROR (compiler, "too many temporary variables");
+    /* a valid index for the caller; compilation stops at its next error
+     * check */
+    return ORC_N_COMPILER_VARIABLES - 1;
+  }
 
   compiler->vars[i].vartype = ORC_VAR_TYPE_TEMP;
   compiler->vars[i].size = size;
@@ -1471,7 +1486,8 @@ orc_compiler_get_constant_reg (OrcCompiler *compiler)
     }
   }
   for(j=0;j<compiler->n_constants;j++){
-    if (compiler->constants[j].alloc_reg) {
+    /* the PowerPC backend marks "no register" with -1 */
+    if (compiler->constants[j].alloc_reg > 0) {
       compiler->alloc_regs[compiler->constants[j].alloc_reg] = 1;
     }
   }
